@@ -358,7 +358,7 @@ fn key_part<V: Variant>(ctx: &mut Ctx, tier: Tier, seeds: &[u64]) {
         &format!("{} keys (seeds {:?}), each as generated and as reloaded through to_bytes/from_bytes: I1 all n leaves = sigma(spec)/||b~_k|| from a dense 2n x 2n Gram-Schmidt in tower order and within [sigma_min, sigma_max]; I2 for every signing execution (3 messages x default environment and all sets of <= {} forced sampler answers at 4 positions): each of the 2n sampler calls of every attempt has the nearest-plane centre of the dense reference recursion (tolerance 1e-6), its leaf as width, the specification's SamplerZ output on the logged bytes, and the emitted (s1,s2) equals target - sum z_k b_k; I3 norm within the bound", seeds.len(), seeds, if tier.thorough() { 2 } else { 1 }),
     );
     part.exhaustive = true;
-    if t.sampler_calls_checked == 0 {
+    if t.sampler_calls_checked == 0 && t.nviol == 0 {
         machinery_error("C10: no sampler call was checked (vacuity guard)");
     }
     t.into_part(ctx, part);
